@@ -167,6 +167,80 @@ def rule_plumbing(ctx, M):
                       fn=fn.path, file=fn.file, line=fn.line)
 
 
+def rule_successor(ctx, M):
+    """the position moves to its lexicographic successor: river+1 while river < L-1, else (turn+1, turn+2);
+    nothing else writes the position (necessary for 'position by position in that order' and for landing exactly
+    on a scope's end, which the >=-shaped exhaustion test relies on)."""
+    rule = "C04.successor"
+    ctx.rule(rule, "the only writes to the position are river += 1 (under river < L-1) and turn += 1; river = turn + 1, outside any loop")
+    pl = M.plumbing()
+    T, R = pl["turn_from"][1], pl["river_from"][1]
+    L_ = M.deck_len
+    reach = M.cg.reach([M.next.path])
+    stores = {T: [], R: []}
+    borrows = []
+    for p in sorted(reach):
+        fn = M.F.fns[p]
+        if fn.local_ty(1) if fn.arg_count else "" != "&mut " + M.iter_ty:
+            pass
+        if fn.arg_count < 1 or fn.local_ty(1) != "&mut " + M.iter_ty:
+            continue
+        pr = P.Prov(fn)
+        loops = fn.cfg.loops()
+        in_loop = set().union(*loops.values()) if loops else set()
+        # the next() wrapper's own retry loop does not count when the deal function is separate
+        for l, lst in pr.stores.items():
+            for (sb, si, pj, rv) in lst:
+                proj = pj["proj"]
+                if pj["l"] == 1 and len(proj) == 2 and proj[0] == "deref" and proj[1].get("f") in (T, R):
+                    val = pr.rvalue(rv) if "callterm" not in rv else None
+                    stores[proj[1]["f"]].append((fn, sb, val, sb in in_loop))
+        for bi in sorted(fn.cfg.reachable):
+            for s_ in fn.blocks[bi]["stmts"]:
+                if s_["k"] == "assign" and "ref" in s_["rv"] and s_["rv"].get("mut"):
+                    rp = s_["rv"]["ref"]
+                    if rp["l"] == 1 and len(rp["proj"]) >= 2 and rp["proj"][0] == "deref" and isinstance(rp["proj"][1], dict) \
+                            and rp["proj"][1].get("f") in (T, R):
+                        borrows.append((fn, s_["line"]))
+    fT, fR = M.self_field(T), M.self_field(R)
+    problems = []
+
+    def plus1(v, base):
+        return v is not None and v[0] == "bin" and v[1] == "Add" and P.strip(v[2]) == base and P.const_int(v[3]) == 1
+    if borrows:
+        problems.append((borrows[0][0], borrows[0][1], "the position is mutably borrowed (updated through a reference)"))
+    if len(stores[T]) != 1 or not plus1(stores[T][0][2], fT):
+        fn0 = stores[T][0][0] if stores[T] else M.deal
+        problems.append((fn0, fn0.line, f"the turn index is written {len(stores[T])} time(s) / not as `turn += 1`"))
+    r_inc = [x for x in stores[R] if plus1(x[2], fR)]
+    r_roll = [x for x in stores[R] if plus1(x[2], fT) or (x[2] is not None and x[2][0] == "bin" and x[2][1] == "Add" and P.strip(x[2][2]) == fT and P.const_int(x[2][3]) == 2)]
+    if len(stores[R]) != 2 or len(r_inc) != 1 or len(r_roll) != 1:
+        fn0 = stores[R][0][0] if stores[R] else M.deal
+        problems.append((fn0, fn0.line, f"the river index is written {len(stores[R])} time(s); expected `river += 1` and `river = turn + 1`"))
+    for f_, lst in stores.items():
+        for (fn, sb, val, inl) in lst:
+            if inl:
+                problems.append((fn, fn.blocks[sb]["line"], "a position update sits inside a loop (the position can jump over rows)"))
+    if not problems:
+        fn, sb, val, _ = r_inc[0]
+        pr = P.Prov(fn)
+        e_lt = I.edges_implying(fn, pr, "Lt", lambda t: t == fR, lambda t: P.const_int(t) == L_ - 1) + \
+            I.edges_implying(fn, pr, "Le", lambda t: t == fR, lambda t: P.const_int(t) == L_ - 2)
+        if not e_lt or not I.guarded_by(fn, sb, e_lt):
+            problems.append((fn, fn.blocks[sb]["line"], f"`river += 1` is not guarded by `river < {L_ - 1}` (the last deck index)"))
+        tb = stores[T][0][1]
+        e_ge = I.edges_implying(fn, pr, "Ge", lambda t: t == fR, lambda t: P.const_int(t) == L_ - 1) + \
+            I.edges_implying(fn, pr, "Gt", lambda t: t == fR, lambda t: P.const_int(t) == L_ - 2)
+        if stores[T][0][0] is fn and (not e_ge or not I.guarded_by(fn, tb, e_ge)):
+            problems.append((fn, fn.blocks[tb]["line"], f"`turn += 1` is not guarded by `river >= {L_ - 1}`"))
+    if problems:
+        for (fn, line, what) in problems[:3]:
+            ctx.violation(rule, f"{fn.path}|{what.split('(')[0].strip().replace(' ', '-')[:50]}", what, fn=fn.path, file=fn.file, line=line,
+                          construct="position update")
+    else:
+        ctx.ok(rule, {"river": f"+= 1 under river < {L_ - 1}", "rollover": "turn += 1; river = turn + 1", "other_writes": 0}, sample=True)
+
+
 def run(ctx):
     ctx.explanation = ("static: (1) write-freedom of every path to the exhausted return w.r.t. the fields its branch "
                        "conditions read, which proves 'afterwards stays exhausted' for every input (no other state exists, "
@@ -175,10 +249,10 @@ def run(ctx):
     F = ctx.facts("lib")
     M = evalmodel.get(F)
     ctx.analysed([M.deal, M.next, M.scope, M.new, M.ctor])
-    for f in (rule_idempotent, rule_plumbing):
+    for f in (rule_idempotent, rule_plumbing, rule_successor):
         try:
             f(ctx, M)
         except Unrecognised as e:
             ctx.unrecognised(e.rule, e.msg, e.fn, e.line)
     ctx.assume("the iterator has no state outside its own fields (C15)")
-    ctx.assume("position arithmetic of the (turn, river) walk is a runtime-value statement not decided here")
+    ctx.assume("that the walk visits positions in lexicographic order follows from the successor shape; which showdowns are yielded at a position is C02's matter")
